@@ -18,6 +18,7 @@ import (
 
 	"github.com/EliCDavis/polyform/formats/ply"
 	"github.com/EliCDavis/polyform/modeling"
+	"github.com/EliCDavis/polyform/nodes"
 	"pgregory.net/rapid"
 
 	"verifharness/internal/oracle"
@@ -182,7 +183,19 @@ func runCase(c Case, o *vh.Obs) *vh.Failure {
 	if err != nil {
 		return vh.Failf("read-error", "ReadMesh rejected a valid file: %v\n%q", err, enc.Bytes)
 	}
-	return Compare(f, m, enc.Bytes)
+	if fl := Compare(f, m, enc.Bytes); fl != nil {
+		return fl
+	}
+	// the graph's PLY read node is the same decoder applied to a byte parameter
+	var nm modeling.Mesh
+	var nerr error
+	if kind, val := oracle.Try(func() { nm, nerr = (ply.ReadNodeData{In: nodes.Value(enc.Bytes).Out()}).Process() }); kind != "" {
+		return vh.Failf("readnode-panic-"+kind, "ply.ReadNode panicked on a valid file: %v\n%q", val, enc.Bytes)
+	}
+	if nerr != nil || oracle.Snapshot(nm) != oracle.Snapshot(*m) {
+		return vh.Failf("readnode-differs", "ply.ReadNode on the bytes of a valid file (err %v) gives a different mesh than ReadMesh\n%q", nerr, enc.Bytes)
+	}
+	return nil
 }
 
 // Compare checks the decoded mesh against the description.
